@@ -58,7 +58,8 @@ class RepeatingEventBase(EventBase):
 
     def create_emsg_boxes(self, segment_num, mod_segment, moof,
                           representation, **kwargs) -> list[EventMessageBox]:
-        if not self.inband:
+        if not self.inband or self.interval <= 0 or self.timescale <= 0:
+            # a schedule without a positive interval does not describe any event
             return []
         # start and end time of the fragment (representation timebase)
         seg_start = moof.traf.tfdt.base_media_decode_time
